@@ -59,6 +59,15 @@ CHECKS = {
         note="sampling made reproducible by seeding before each call; calls that raise are allowed but must leave everything unchanged",
         ref="DESIGN.md 4/C13",
     ),
+    "C17": dict(
+        technique="bounded-exhaustive product exploration: boundary alphabet placed at every (batch, feature) position x subject x direction x box/tail bound x dtype x pattern; oracle = exception type / finiteness",
+        text="For every domain-restricted transform and direction (Exp/Tanh/Sigmoid/Cauchy inverses, Logit, the four box splines as bare functions with three boxes, as CDF "
+        "transforms, couplings (2-D, image, with unconditional transform) and masked autoregressive transforms) and for the unrestricted variants with linear tails (tail bounds 1 .. 1e4), "
+        "in float32 and float64, each value of {boundary, 1 ulp inside, 1 ulp outside, 1 unit outside, +-tail bound and neighbours, far tail} is placed at every position of a 3 x D batch: "
+        "outside must raise exactly InputOutsideDomain, inside must return finite outputs and log-dets.",
+        note="domains as documented (closed boxes, open (0,inf)/(-1,1)); couplings restrict only transformed features",
+        ref="DESIGN.md 4/C17",
+    ),
     "C19": dict(
         technique="bounded-exhaustive product exploration; oracle = float64 twin of the same model with a measured-conditioning accuracy band",
         text="Every transform (both directions) and every flow/distribution log_prob is evaluated in float32 on the float32-rounded C01/C02 row alphabets for every configuration "
